@@ -156,11 +156,7 @@ class Ref:
             return self._store("form", ("form", EXPECT_FORM[self.kind]))
         if op == "close":
             c = self.cache.get("form")
-            if c is not None:
-                if c[0] != "form":
-                    # close() re-raises a cached failed form parse on ASGI; the statement says nothing about close's own
-                    # result, so this is tolerated (noted in DESIGN.md as an observation, not claimed)
-                    return ("any",)
+            if c is not None and c[0] == "form":
                 self.closed = True
             return ("v", None)
         raise KeyError(op)
